@@ -4,6 +4,7 @@ package main
 // to a small depth), so that rules keep working when code is moved into an extracted helper.
 
 import (
+	"go/types"
 	"sort"
 
 	"golang.org/x/tools/go/ssa"
@@ -29,10 +30,35 @@ func (c *Ctx) isHelper(fn, callee *ssa.Function) bool {
 	if callee == nil || len(callee.Blocks) == 0 || !c.isRepoFunc(callee) {
 		return false
 	}
-	if callee.Pkg == nil || fn.Pkg == nil {
+	cp, fp := pkgOfFunc(callee), pkgOfFunc(fn)
+	if cp == nil || fp == nil {
 		return callee.Parent() != nil // closures
 	}
-	return callee.Pkg == fn.Pkg
+	return cp == fp
+}
+
+// pkgOfFunc: the package a function belongs to; instantiations of generic functions belong to their origin's package.
+func pkgOfFunc(f *ssa.Function) *ssa.Package {
+	for g := f; g != nil; g = g.Parent() {
+		if g.Pkg != nil {
+			return g.Pkg
+		}
+		if o := g.Origin(); o != nil && o.Pkg != nil {
+			return o.Pkg
+		}
+	}
+	return nil
+}
+
+// objOfFunc: the declared object of a function (of its origin for an instantiation).
+func objOfFunc(f *ssa.Function) types.Object {
+	if f.Object() != nil {
+		return f.Object()
+	}
+	if o := f.Origin(); o != nil {
+		return o.Object()
+	}
+	return nil
 }
 
 // regionCalls lists every call of root and, recursively (depth <= 3), of the same-package functions it calls.
@@ -66,7 +92,7 @@ func (c *Ctx) regionCalls(root *ssa.Function, follow func(*ssa.Function) bool) [
 				if follow != nil {
 					ok = follow(callee)
 				} else {
-					ok = !callee.Object().Exported()
+					ok = objOfFunc(callee) != nil && !objOfFunc(callee).Exported()
 				}
 				if ok {
 					walk(callee, append(append([]ssa.CallInstruction{}, ch...), ci), stack)
@@ -192,7 +218,7 @@ func (c *Ctx) regionFuncChains(root *ssa.Function, follow func(*ssa.Function) bo
 		if follow != nil {
 			ok = follow(callee)
 		} else {
-			ok = callee.Object() != nil && !callee.Object().Exported()
+			ok = objOfFunc(callee) != nil && !objOfFunc(callee).Exported()
 		}
 		if ok {
 			if _, seen := out[callee]; !seen {
@@ -212,4 +238,10 @@ func (c *Ctx) regionFuncChainsList(root *ssa.Function) []*ssa.Function {
 	}
 	sort.Slice(out, func(i, j int) bool { return out[i].String() < out[j].String() })
 	return out
+}
+
+// isExportedFn: the function (or, for an instantiation, its generic origin) is exported.
+func isExportedFn(f *ssa.Function) bool {
+	o := objOfFunc(f)
+	return o != nil && o.Exported()
 }
